@@ -253,6 +253,9 @@ func (e *Exec) ident(v *ast.Ident, c *Ctx) Term {
 	}
 	// spec: by name
 	if k, ok := c.fr.names[v.Name]; ok {
+		if t, ok2 := e.escapedValue(c.st, k); ok2 {
+			return t
+		}
 		if t, ok2 := c.st.vars[k]; ok2 {
 			return t
 		}
@@ -298,6 +301,9 @@ func (e *Exec) objValue(obj types.Object, c *Ctx) Term {
 				return v
 			}
 		}
+		if v, ok := e.escapedValue(c.st, e.keyOf(o)); ok {
+			return v
+		}
 		return e.get(c.st, e.keyOf(o), t)
 	case *types.Nil:
 		return Term{"0", tNil}
@@ -311,6 +317,29 @@ func (e *Exec) objValue(obj types.Object, c *Ctx) Term {
 	}
 	e.errorf("%s: unsupported object %v", e.curPos, obj)
 	return Term{e.vc.FreshConst("unk", "Int"), tOpaque}
+}
+
+// A local (non-struct) variable whose address was taken lives in a cell from then on: reads go through the cell (a callee
+// may have written it through the pointer), writes update it.
+func (e *Exec) escapedValue(st *State, key string) (Term, bool) {
+	p, ok := st.vars["&addr!"+key]
+	if !ok || p.T.K != KRef || p.T.Name != "" || p.T.Elem == nil {
+		return Term{}, false
+	}
+	at := &Type{K: KGMap, Key: tInt, Elem: p.T.Elem}
+	h := e.get(st, "P!"+mangle(e.Sort(p.T.Elem)), at)
+	return Term{fmt.Sprintf("(select %s %s)", h.S, p.S), p.T.Elem}, true
+}
+
+func (e *Exec) escapedStore(st *State, key string, v Term) {
+	p, ok := st.vars["&addr!"+key]
+	if !ok || p.T.K != KRef || p.T.Name != "" || p.T.Elem == nil {
+		return
+	}
+	at := &Type{K: KGMap, Key: tInt, Elem: p.T.Elem}
+	k := "P!" + mangle(e.Sort(p.T.Elem))
+	h := e.get(st, k, at)
+	e.set(st, k, Term{fmt.Sprintf("(store %s %s %s)", h.S, p.S, e.coerce(v, p.T.Elem, st).S), at})
 }
 
 // ---------------------------------------------------------------- fields
@@ -521,11 +550,11 @@ func (e *Exec) unary(v *ast.UnaryExpr, c *Ctx) Term {
 				if cur, ok := c.st.vars[k]; ok {
 					return cur
 				}
+				cur := e.eval(id, c) // (before the variable is redirected to the cell)
 				r := Term{e.alloc(c.st, "cell"), t}
 				c.st.vars[k] = r
 				// the cell holds the variable's current value (a later *p reads it)
 				if t.K == KRef && t.Name == "" {
-					cur := e.eval(id, c)
 					at := &Type{K: KGMap, Key: tInt, Elem: t.Elem}
 					key := "P!" + mangle(e.Sort(t.Elem))
 					h := e.get(c.st, key, at)
@@ -1273,6 +1302,7 @@ func (e *Exec) assign(lhs ast.Expr, v Term, c *Ctx) {
 		}
 		t := e.prog.TypeOf(obj.Type(), c.fr.subst)
 		e.set(c.st, e.keyOf(obj), e.coerce(v, t, c.st))
+		e.escapedStore(c.st, e.keyOf(obj), e.coerce(v, t, c.st))
 		return
 	case *ast.SelectorExpr:
 		base := e.eval(l.X, c)
